@@ -208,6 +208,8 @@ fn sample_defaults() -> BTreeMap<(String, String), String> {
     out
 }
 
+static SHORTHAND: std::sync::atomic::AtomicUsize = std::sync::atomic::AtomicUsize::new(0);
+
 #[derive(Clone, Copy, PartialEq, Debug)]
 enum Layer {
     Cli,
@@ -228,6 +230,11 @@ fn render(assign: &[(&Opt, &str, Layer)]) -> (Vec<String>, String) {
                     themes.push(format!("{key}={v}"));
                 } else if o.name.starts_with("binding:") {
                     binds.push(format!("{key}={v}"));
+                } else if (o.name == "protocol" || (o.name == "addr-family" && (*v == "ipv4" || *v == "ipv6")))
+                    && SHORTHAND.fetch_add(1, std::sync::atomic::Ordering::Relaxed) % 2 == 0
+                {
+                    // the shorthand spelling of the same command-line value: --udp / --tcp / --icmp, --ipv4 / --ipv6
+                    argv.push(format!("--{v}"));
                 } else if o.kind == Kind::Flag {
                     if *v == "true" {
                         argv.push(format!("--{}", o.name));
